@@ -48,6 +48,30 @@ CLAIMED['C02'] = dict(
          'pynbt (NBT) not covered.',
     design='§6 C02')
 
+CLAIMED['C06'] = dict(
+    text='Every get_id and all eight get_packets are executed symbolically once over a symbolic chronological version index '
+         '(369 known versions in one run); their strongest postconditions (region tables) are then used to discharge, per '
+         'table, id.total for each member class and id.injective for each unordered pair over ALL supported versions as one '
+         'solver query each, with witness enumeration by blocking clauses. PacketReactor.__init__\'s dict comprehension is '
+         'executed from its real body per region (reactor.map). The 9 collisions on supported versions that exist in the '
+         'unchanged tree are listed in known_findings.json by (pair, protocol); the residual obligation (no other witness) is '
+         'what must be unsat. Collisions on unsupported known versions are reported in the evidence only.',
+    note='Trusted: S4 version-order contract (proved in C08), Python set/dict semantics on class objects. A brute-force pass '
+         'over all known versions on the real functions runs alongside as a cross-check (exhaustive, labelled bounded).',
+    design='§6 C06')
+CLAIMED['C08'] = dict(
+    text='The real bodies of protocol_earlier/_eq and of the five ConnectionContext predicates are executed over an ABSTRACT '
+         'injective index map (uninterpreted idx), so strict total order, mutual consistency and the S4 contract hold for every '
+         'table initglobals can build, not only the shipped one. Closed obligations over the literal record list: numeric '
+         'order of ordinary protocol numbers, publication order of 2^30-flagged ones, every derived table equals the '
+         'order-preserving duplicate-free projection written independently from the statement.',
+    note='NOT proved: initglobals for arbitrary record lists / run-time extension histories (loop invariants over symbolic '
+         'dicts and lists were not built) - covered by a bounded stand-in only (seeded record lists with colliding ids and '
+         'protocols, extend + re-initialise, compared with the specification projection) plus idempotence on the shipped table; '
+         'injectivity of idx is therefore an assumption of the order proof for tables other than the shipped one. '
+         'Trusted: dict lookup semantics, regex semantics of the release-id pattern.',
+    design='§6 C08')
+
 PLANNED = {
     'C01': 'check not built yet (DESIGN §6 C01): frame contracts on Packet.write/_write_buffer/read_packet',
     'C02': 'check not built yet (DESIGN §6 C02)',
